@@ -32,7 +32,7 @@ FUNCTIONS = ['codegen_op', 'codegen_ip', 'codegen_lc', 'codegen_rc', 'codegen_sp
              'filter_func/keyout_func closures (bit-vector execution)', 'generated functions op_/ip_/lc_/rc_/sp_/cp_/acp_<A>_x_<B>']
 ASSUMPTIONS = ['coefficients are reals (polynomial identities => any commutative ring containing 1/2 for cp/acp)',
                'patterns/configurations enumerated; coefficient values symbolic; blade indices symbolic up to width W in Engine B']
-BOUNDS = {'quick': 'd<=2 all ordered pattern pairs (sampled per signature beyond three base signatures), d=3 sampled subsets + grade unions + single blades, d=4,5 grade unions/random sparse, d=7 on fresh algebras (lazy table, cp/acp first); wrapper slices with a second pass; custom bases and explicit orderings sampled; Engine B width W=10',
+BOUNDS = {'quick': 'd<=2 all ordered pattern pairs (sampled per signature beyond three base signatures), d=3 sampled subsets + grade unions + single blades, d=4,5 grade unions/random sparse, d=7 on fresh algebras (lazy table, cp/acp first); wrapper slices with a second pass; custom bases and explicit orderings sampled; Engine B width W=10; twin algebras coexisting in one process',
           'thorough': 'd<=2 complete, d=3 5k subset pairs per signature, d=4 all (p,q,r) random sparse, Engine B width W=16'}
 OUTSIDE = ['d > 5 for Engine A', 'blade indices >= 2^W for Engine B', 'floating-point rounding']
 OPTS = {'rlimit': 80_000_000, 'canary_every': 20}
